@@ -18,9 +18,10 @@ the same definitions with `fixed := false` are the current code and `Sqfs/Witnes
 these theorems is *false* for it, with a concrete witness that the check replays on the real code.
 -/
 import Sqfs.Proofs.ReaderBounds
-import Sqfs.Proofs.ReaderWalk
+import Sqfs.Proofs.ReaderWalkV
+import Sqfs.Proofs.ReaderTables
 namespace Sqfs.C05
-open Sqfs.ReaderBounds Sqfs.ReaderWalk
+open Sqfs.ReaderBounds Sqfs.ReaderWalk Sqfs.ReaderTables
 
 /-! ## `meta_reader.c` -/
 
@@ -172,6 +173,130 @@ theorem resolve_compare_safe (name path : List UInt8) (hp : (0 : UInt8) ∉ path
     ∀ a ∈ (resolveCompare true name path).2, a.inBounds :=
   resolveCompare_safe name path hp
 
+/-! ## `read_super.c`, `id_table.c`, `frag_table.c` (models: `Sqfs/Model/ReaderTables.lean`) -/
+
+/-- `sqfs_super_read` reads exactly `sizeof(sqfs_super_t)` bytes into its local copy, and when it succeeds the
+superblock satisfies what the other theorems assume of it: magic and version, `4096 ≤ block_size ≤ 1 MiB`,
+`block_size = 2^block_log` with `12 ≤ block_log ≤ 20` (so `block_size ≠ 0`), a known compressor id, `id_count ≠ 0` -/
+theorem super_read_safe (io : Bool) (s : Super) :
+    (∀ a ∈ (superRead io s).2, a.inBounds) ∧ ((superRead io s).1 = .ok () → io = false ∧ SuperOk s) :=
+  ⟨superRead_safe io s, superRead_ok io s⟩
+
+/-- `sqfs_id_table_read`: for every superblock the table size `id_count * 4` is computed without wrap, the table is
+read from `id_table_start` through a meta reader whose window ends there, `sqfs_read_table` fills exactly that many
+bytes whatever its reads return, and the byte swap loop stays inside them -/
+theorem id_table_read_safe (s : Super) (rt : Except Err Unit) (stepOk : Nat → Bool) :
+    (∀ a ∈ (idTableRead s rt).2, a.inBounds) ∧
+    (∀ req, idTableReq s = .ok req → req.tableSize.toNat = s.idCount.toNat * 4 ∧ req.upper = s.idTableStart ∧
+      (∀ a ∈ (readTable req.tableSize stepOk).2, a.inBounds)) :=
+  ⟨idTableRead_safe s rt, fun req h => ⟨(idTableReq_ok s req h).1, (idTableReq_ok s req h).2.2.1,
+    readTable_safe req.tableSize stepOk⟩⟩
+
+/-- `sqfs_id_table_index_to_id`: an index is only used below `ids.used` -/
+theorem index_to_id_safe (used : UInt64) (index : UInt16) (as : List Access) (h : indexToId used index = .ok as) :
+    ∀ a ∈ as, a.inBounds := indexToId_safe used index as h
+
+/-- `sqfs_frag_table_read`: for every superblock that gets as far as `sqfs_read_table`, the size
+`fragment_entry_count * 16` is exact (no wrap), the location lies in `[directory_table_start, id_table_start)` and
+below `bytes_used`, the meta reader window ends at or before `id_table_start`, and the table is filled exactly -/
+theorem frag_table_read_safe (s : Super) (req : TableReq) (stepOk : Nat → Bool) (h : fragTableReq s = .ok (some req)) :
+    req.tableSize.toNat = s.fragCount.toNat * 16 ∧ req.lower.toNat ≤ req.location.toNat ∧
+    req.location.toNat < s.idTableStart.toNat ∧ req.location.toNat < s.bytesUsed.toNat ∧
+    req.upper.toNat ≤ s.idTableStart.toNat ∧ (∀ a ∈ (readTable req.tableSize stepOk).2, a.inBounds) := by
+  have k := fragTableReq_ok s req h
+  exact ⟨k.1, k.2.2.2.2.1, k.2.2.2.2.2.1, k.2.2.2.2.2.2.1, k.2.2.2.2.2.2.2, readTable_safe req.tableSize stepOk⟩
+
+/-- `sqfs_frag_table_lookup` -/
+theorem frag_lookup_safe (used : UInt64) (index : UInt32) (as : List Access) (h : fragLookup used index = .ok as) :
+    ∀ a ∈ as, a.inBounds := fragLookup_safe used index as h
+
+/-! ## `xattr_reader.c`
+
+`XattrInv x`: both meta readers of the xattr reader hold at most 8192 bytes, and while a table is loaded
+`num_id_blocks = ceil(num_ids * 16 / 8192)` with `num_ids < 2^32`.  It holds after `sqfs_xattr_reader_create`
+(`XattrInv_init`) and every routine keeps it, also when it fails; every theorem is for **all** values found in the
+image (`tblStart`, `ids`, the locations, descriptor fields, key type/size, value size, out-of-line reference) and
+all outcomes of `read_at`. -/
+
+theorem xattr_load_safe (s : Super) (x : XattrSt) (io1 : Bool) (tblStart : UInt64) (ids : UInt32) (io2 : Bool)
+    (starts : Nat → UInt64) (hx : XattrInv x) :
+    (∀ a ∈ (xattrLoad s x io1 tblStart ids io2 starts).acc, a.inBounds) ∧
+    XattrInv (xattrLoad s x io1 tblStart ids io2 starts).st := xattrLoad_spec s x io1 tblStart ids io2 starts hx
+
+/-- `sqfs_xattr_reader_get_desc`: the index into `id_block_starts` is below `num_id_blocks` for every `idx < num_ids` -/
+theorem xattr_get_desc_safe (c : MetaCfg) (hc : MetaCodecOk c) (x : XattrSt) (idx : UInt32) (hx : XattrInv x) :
+    (∀ a ∈ (xattrGetDesc c x idx).acc, a.inBounds) ∧ XattrInv (xattrGetDesc c x idx).st :=
+  xattrGetDesc_spec c hc x idx hx
+
+theorem xattr_seek_kv_safe (c : MetaCfg) (hc : MetaCodecOk c) (x : XattrSt) (xattr : UInt64) (hx : XattrInv x) :
+    (∀ a ∈ (xattrSeekKv c x xattr).acc, a.inBounds) ∧ XattrInv (xattrSeekKv c x xattr).st :=
+  xattrSeekKv_spec c hc x xattr hx
+
+/-- `sqfs_xattr_reader_read_key`: header, prefix and `key.size` bytes fit the `4 + strlen(prefix) + size + 1` bytes
+allocated -/
+theorem xattr_read_key_safe (c : MetaCfg) (hc : MetaCodecOk c) (a : KvAns) (m : MetaSt)
+    (hm : m.dataUsed.toNat ≤ metaCap) :
+    (∀ x ∈ (kvReadKey c a m).acc, x.inBounds) ∧ (kvReadKey c a m).st.dataUsed.toNat ≤ metaCap :=
+  kvReadKey_safe c hc a m hm
+
+/-- `sqfs_xattr_reader_read_value`, out-of-line values included (reference re-based on `xattr_start`, one level,
+position restored): header and `value.size` bytes (any 32 bit value) fit the `4 + 1 + size` bytes allocated -/
+theorem xattr_read_value_safe (c : MetaCfg) (hc : MetaCodecOk c) (xs xe : UInt64) (a : KvAns) (m : MetaSt)
+    (hm : m.dataUsed.toNat ≤ metaCap) :
+    (∀ x ∈ (kvReadValue c xs xe a m).acc, x.inBounds) ∧ (kvReadValue c xs xe a m).st.dataUsed.toNat ≤ metaCap :=
+  kvReadValue_safe c hc xs xe a m hm
+
+/-- `sqfs_xattr_reader_read` (used by `read_all`): prefix, key, value and both terminators stay inside the
+`sqfs_xattr_t` that is allocated and then grown -/
+theorem xattr_read_safe (c : MetaCfg) (hc : MetaCodecOk c) (xs xe : UInt64) (a : KvAns) (m : MetaSt)
+    (hm : m.dataUsed.toNat ≤ metaCap) :
+    (∀ x ∈ (kvRead c xs xe a m).acc, x.inBounds) ∧ (kvRead c xs xe a m).st.dataUsed.toNat ≤ metaCap :=
+  kvRead_safe c hc xs xe a m hm
+
+theorem xattr_read_all_safe (c : MetaCfg) (hc : MetaCodecOk c) (x : XattrSt) (idx : UInt32) (xattr : UInt64)
+    (count : UInt32) (ans : Nat → KvAns) (hx : XattrInv x) :
+    (∀ a ∈ (xattrReadAll c x idx xattr count ans).acc, a.inBounds) ∧
+    XattrInv (xattrReadAll c x idx xattr count ans).st := xattrReadAll_spec c hc x idx xattr count ans hx
+
+/-- `sqfs_xattr_reader_read_all` ends: `count` iterations, every meta reader call in them ends -/
+theorem xattr_read_all_terminates (c : MetaCfg) (x : XattrSt) (idx : UInt32) (xattr : UInt64) (count : UInt32)
+    (ans : Nat → KvAns) : (xattrReadAll c x idx xattr count ans).r ≠ .error .fuel :=
+  xattrReadAll_ne_fuel c x idx xattr count ans
+
+/-! ## `dir_reader.c`: opening a directory, `.`/`..`, `sqfs_dir_entry_from_inode`, `it_read_link` -/
+
+/-- `sqfs_dir_reader_open_dir`: the cursor takes `size`, `offset` unchanged and `start_block +
+directory_table_start` (64 bit; every later seek checks the window); with dot entries the reader delivers `.`
+(the directory's own reference, which the cache knows) and `..` exactly once each, in this order, before the
+listing; the two artificial entries fit their allocations -/
+theorem open_dir_states (dotEntries : Bool) (flags : UInt32) (dts rootRef : UInt64) (cache : UInt32 → Option UInt64)
+    (ino : DirIno) (st : DirSt) (h : openDir dotEntries flags dts rootRef cache ino = .ok st) :
+    st.size.toNat = ino.size.toNat ∧ st.offset.toNat = ino.offset.toNat ∧ st.block = ino.startBlock.toUInt64 + dts ∧
+    (st.state = .entries ∨ (st.state = .opened ∧ cache ino.inum = some st.dirRef ∧
+      ∃ st1 st2 a1 a2, dirReadDot st = some (.ok st1, a1) ∧ st1.entRef = st.dirRef ∧
+        dirReadDot st1 = some (.ok st2, a2) ∧ st2.entRef = st.parentRef ∧ dirReadDot st2 = none ∧
+        (∀ a ∈ a1 ++ a2, a.inBounds))) := by
+  have k := openDir_ok dotEntries flags dts rootRef cache ino st h
+  refine ⟨k.1, k.2.1, k.2.2.1, ?_⟩
+  rcases k.2.2.2.1 with ho | he
+  · right
+    obtain ⟨st1, st2, a1, a2, h1, e1, h2, e2, h3⟩ := dirReadDot_states st ho
+    refine ⟨ho, k.2.2.2.2 ho, st1, st2, a1, a2, h1, e1, h2, e2, h3, ?_⟩
+    intro a ha
+    rcases List.mem_append.1 ha with ha | ha
+    · exact dirReadDot_safe st _ a1 h1 a ha
+    · exact dirReadDot_safe st1 _ a2 h2 a ha
+  · left; exact he
+
+/-- `sqfs_dir_entry_from_inode`: both id indices are checked against the table, `strnlen`/`strlen` stay inside the
+name buffer (embedded NUL bytes and any `len` included), and the copy fits `sizeof(sqfs_dir_entry_t) + len + 1` -/
+theorem dir_entry_from_inode_safe (used : UInt64) (uidIdx gidIdx : UInt16) (name : List UInt8) (len : UInt64)
+    (hlen : name.length + 1 < 2 ^ 64) : ∀ a ∈ (dirEntryFromInode used uidIdx gidIdx name len).2, a.inBounds :=
+  dirEntryFromInode_safe used uidIdx gidIdx name len hlen
+
+/-- `it_read_link`: `target_size` bytes from a payload of `target_size + 1` into `calloc(1, target_size + 1)` -/
+theorem read_link_safe (targetSize : UInt32) : ∀ a ∈ readLink targetSize, a.inBounds := readLink_safe targetSize
+
 /-! ## termination of the directory walks -/
 
 /-- `fill_dir` (rdsquashfs, sqfsdiff): for every directory graph — cycles included — whose inode numbers lie in a
@@ -196,6 +321,98 @@ theorem dir_rec_terminates (g : DirGraph) (R : List Nat)
   · simp
   · simp
 
+/-! ## the repaired walks: every directory is entered at most once; nesting limit
+
+`fillDirV` / `dirRecV` are `fill_dir` and the recursive iterator with `fixes/C05-dir-visited-set.patch` (a set of
+the directories entered so far, shared by the whole walk) and `fixes/C05-nesting-limit.patch`
+(`SQFS_MAX_DIR_NESTING`; the theorems hold for every value `limit` of the constant).  The two theorems above are
+about the walks of the tree without these patches (ancestor checks only). -/
+
+/-- `fill_dir` with the visited set: for **every** directory graph (cycles, directories listed many times) a tree
+that is delivered has at most as many nodes as the directories of the image have listing entries — `R` is any
+duplicate-free list of inode references that contains the root and every entry that is a directory.  (The walk of
+the unpatched tree delivers `2^(n+1) - 2` nodes for `2n` entries: `Witness.dag_blowup_exponential`.) -/
+theorem fill_dir_nodes_linear (g : DirGraph) (limit fuel root n : Nat) (R : List Nat) (hn : R.Nodup)
+    (hR : ∀ r c, c ∈ g.entries r → g.isDir c = true → c ∈ R) (hroot : root ∈ R)
+    (h : readTreeV g limit fuel root = .ok n) : n ≤ listingEntries g R := by
+  unfold readTreeV at h
+  split at h
+  · rename_i n' vis' hf
+    simp only [Except.ok.injEq] at h; subst h
+    obtain ⟨m, e, E, ev, nE, dE, rE, s⟩ := fillDirV_grew g limit R hR _ _ _ _ _ _ _ hf
+    have hnod : (root :: E).Nodup := by
+      apply nodup_of_map_nodup g.inum
+      simp only [List.map_cons]
+      exact List.nodup_cons.2 ⟨fun hm => dE _ hm (by simp), nE⟩
+    have := sum_le_of_nodup_subset (fun r => (g.entries r).length) (root :: E) R hnod (by
+      intro x hx
+      rcases List.mem_cons.1 hx with rfl | hx
+      · exact hroot
+      · exact rE x hx)
+    simp only [listingEntries] at s ⊢
+    simp only [List.map_cons, List.sum_cons] at this
+    omega
+  · simp at h
+
+/-- the recursive iterator (sqfs2tar) with the visited set: the entries delivered are at most the listing of the
+start directory plus the listings of the directories of the image (the start directory has no recorded identity,
+so its listing may be counted once more) -/
+theorem dir_rec_nodes_linear (g : DirGraph) (limit fuel root n : Nat) (R : List Nat) (hn : R.Nodup)
+    (hR : ∀ r c, c ∈ g.entries r → g.isDir c = true → c ∈ R)
+    (h : tarWalkV g limit fuel root = .ok n) : n ≤ (g.entries root).length + listingEntries g R := by
+  unfold tarWalkV at h
+  split at h
+  · rename_i n' vis' hf
+    simp only [Except.ok.injEq] at h; subst h
+    obtain ⟨m, e, E, ev, nE, dE, rE, s⟩ := dirRecV_grew g limit R hR _ _ _ _ _ _ hf
+    simp only [List.map_id_fun, id_eq] at nE
+    have := sum_le_of_nodup_subset (fun r => (g.entries r).length) E R nE rE
+    simp only [listingEntries] at s ⊢
+    omega
+  · simp at h
+
+/-- `fill_dir` with the nesting limit: for every directory graph the recursion is at most `limit + 2` frames deep
+(`limit + 2` units of fuel are always enough: the walk ends with a tree, `LINK_LOOP` or `OVERFLOW`).  The same bound
+holds for `resolve_ids` and `sqfs_dir_tree_destroy`, which recurse over the tree `fill_dir` built. -/
+theorem fill_dir_depth_bounded (g : DirGraph) (limit root : Nat) :
+    readTreeV g limit (limit + 2) root ≠ .error .fuel := by
+  unfold readTreeV
+  have := fillDirV_depth g limit (limit + 2) 0 [g.inum root] [g.inum root] root (by omega) (by omega)
+  split
+  · simp
+  · rename_i e he; intro h; simp only [Except.error.injEq] at h; subst h; exact this he
+
+/-- the recursive iterator with the nesting limit: at most `limit + 1` iterators are ever on the stack -/
+theorem dir_rec_depth_bounded (g : DirGraph) (limit root : Nat) :
+    tarWalkV g limit (limit + 1) root ≠ .error .fuel := by
+  unfold tarWalkV
+  have := dirRecV_depth g limit (limit + 1) 1 [] root (by omega) (by omega)
+  split
+  · simp
+  · rename_i e he; intro h; simp only [Except.error.injEq] at h; subst h; exact this he
+
+/-- whatever the value of the nesting limit: `would_be_own_parent` still bounds the depth of the repaired `fill_dir`
+by the number of inode numbers -/
+theorem fill_dir_v_terminates (g : DirGraph) (limit : Nat) (S : List UInt32) (hS : ∀ r, g.inum r ∈ S) (root : Nat) :
+    readTreeV g limit S.length root ≠ .error .fuel := by
+  unfold readTreeV
+  have := fillDirV_ne_fuel g limit S hS S.length 0 [g.inum root] [g.inum root] root (by simp)
+    (by intro x hx; simp at hx; subst hx; exact hS root) (by simp)
+  split
+  · simp
+  · rename_i e he; intro h; simp only [Except.error.injEq] at h; subst h; exact this he
+
+/-- whatever the value of the nesting limit: the visited set alone (it replaces the ancestor list of the unpatched
+tree) bounds the depth of the recursive iterator by the number of directory inode references -/
+theorem dir_rec_v_terminates (g : DirGraph) (limit : Nat) (R : List Nat)
+    (hR : ∀ r c, c ∈ g.entries r → g.isDir c = true → c ∈ R) (root : Nat) :
+    tarWalkV g limit (R.length + 1) root ≠ .error .fuel := by
+  unfold tarWalkV
+  have := dirRecV_ne_fuel g limit R hR (R.length + 1) 1 [] root (by simp) (by simp) (by simp)
+  split
+  · simp
+  · rename_i e he; intro h; simp only [Except.error.injEq] at h; subst h; exact this he
+
 /-! ## non-vacuity: the hypotheses are satisfiable and the conclusions speak about real accesses -/
 
 /-- a reader over blocks of 100 uncompressed bytes -/
@@ -214,5 +431,81 @@ example : (readInodeDirExt 10 [3, 0xFFFFFFFF, 200]).isOk = true := by decide
 example : (resolveCompare true [97, 98] [97, 98, 47, 99]).1 = true := by decide
 example : readTree ⟨fun r => if r = 0 then [1, 2] else [], fun _ => true, fun r => r.toUInt32⟩ 3 0 = .ok 2 := by decide
 example : readTree ⟨fun _ => [0], fun _ => true, fun _ => 7⟩ 1 0 = .error .linkLoop := by decide
+
+/-! one instance per remaining theorem: the hypotheses hold and the conclusion is about real accesses -/
+example : (seek exCfg MetaSt.init 96 10).r = .ok () ∧ (seek exCfg MetaSt.init 96 10).acc = [⟨.metaData, 0, 100, 8192⟩] := by decide
+/-- a seek that fails after the old block was given up leaves the cleared reader, and the reader is used on -/
+example : (seek exCfg (seek exCfg MetaSt.init 96 10).st 300 100).st = MetaSt.cleared ∧
+    (mread true exCfg (seek exCfg (seek exCfg MetaSt.init 96 10).st 300 100).st 5).r = .error .oob := by decide
+example : (mread false exCfg (seek exCfg MetaSt.init 96 10).st 1000).r = .ok () := by decide
+example : (runOps true exCfg MetaSt.init [.seek 96 99, .read 3, .seek 5 0, .read 2, .seek 96 100, .read 1]).length = 9 := by decide
+example : getBlock 4096 .blockOut 0x1000800 4096 ⟨false, none⟩ = (.ok 2048, [⟨.blockOut, 0, 2048, 4096⟩]) := by decide
+example : getBlock 4096 .blockOut 0x800 4096 ⟨false, some 4096⟩ =
+    (.ok 4096, [⟨.drScratch, 0, 2048, 4096⟩, ⟨.blockOut, 0, 4096, 4096⟩]) := by decide
+example : (readTable 10000 (fun _ => true)).1 = .ok () ∧ (readTable 10000 (fun _ => true)).2.length = 4 := by decide
+example : (readTable 10000 (fun i => i == 0)).1 = .error .io := by decide
+example : readInodeFile 10000 4096 0xFFFFFFFF 0 = .ok [⟨.inodeExtra, 0, 12, 12⟩] := by decide
+example : readInodeFile 0xFFFFFFFFFFFFFFFF 1 0xFFFFFFFF 0 = .error .overflow := by decide
+example : readInodeSlink 5 = .ok [⟨.inodeExtra, 0, 5, 6⟩] := by decide
+example : readDirEnt 0xFFFF = [⟨.dirEntName, 0, 65536, 65537⟩] := by decide
+example : readdirStep ⟨100, 0⟩ 2 5 = some ⟨74, 2⟩ ∧ readdirStep ⟨20, 0⟩ 0 0 = none := by decide
+example : (unpackIdx true 40 (fun o => if o == 0 then 3 else 7) 5 0 1 []).1 = .ok () := by decide
+example : (unpackIdx true 40 (fun _ => 0xFFFFFFFE) 5 0 0 []).1 = .error .oob := by decide
+example : tarWalk true ⟨fun r => if r = 0 then [1] else [0], fun _ => true, fun _ => 1⟩ 4 0 = .error .linkLoop := by decide
+example : codecContract 8192 8192 = true ∧ codecContract 8192 8193 = false ∧ codecContract 0 (-3) = true := by decide
+
+/-- a tree, a directory listed twice (refused), and a chain one level deeper than the limit (refused) -/
+def exTree : DirGraph := ⟨fun r => if r = 0 then [1, 2] else if r = 1 then [3] else [], fun _ => true, fun r => r.toUInt32⟩
+def exShared : DirGraph := ⟨fun r => if r = 0 then [1, 1] else [], fun _ => true, fun r => r.toUInt32⟩
+def exChain : DirGraph := ⟨fun r => [r + 1], fun r => r < 4, fun r => r.toUInt32⟩
+example : readTreeV exTree 4096 5 0 = .ok 3 := by decide
+example : tarWalkV exTree 4096 5 0 = .ok 3 := by decide
+example : listingEntries exTree [0, 1, 2, 3] = 3 := by decide
+example : readTreeV exShared 4096 5 0 = .error .linkLoop := by decide
+example : tarWalkV exShared 4096 5 0 = .error .linkLoop := by decide
+example : readTreeV exChain 3 5 0 = .ok 4 := by decide        -- directories at level 1..3, a file at level 4
+example : readTreeV exChain 2 4 0 = .error .overflow := by decide
+example : tarWalkV exChain 3 4 0 = .ok 4 := by decide
+example : tarWalkV exChain 2 3 0 = .error .overflow := by decide
+
+/-- a valid superblock, and what the checks make of single field edits -/
+def exSuper : Super where
+  magic := 0x73717368
+  inodeCount := 3
+  modTime := 0
+  blockSize := 131072
+  fragCount := 1
+  compId := 1
+  blockLog := 17
+  flags := 0
+  idCount := 2
+  vMajor := 4
+  vMinor := 0
+  rootRef := 0
+  bytesUsed := 1000
+  idTableStart := 900
+  xattrIdTableStart := 950
+  inodeTableStart := 96
+  dirTableStart := 300
+  fragTableStart := 500
+  exportTableStart := 0xFFFFFFFFFFFFFFFF
+example : (superRead false exSuper).1 = .ok () := by decide
+example : (superRead false { exSuper with blockSize := 0 }).1 = .error .superBlockSize := by decide
+example : (superRead false { exSuper with blockLog := 16 }).1 = .error .corrupted := by decide
+example : idTableReq exSuper = .ok ⟨8, 900, 500, 900⟩ := by decide
+example : fragTableReq exSuper = .ok (some ⟨16, 500, 300, 900⟩) := by decide
+example : fragTableReq { exSuper with fragTableStart := 900 } = .error .corrupted := by decide
+example : indexToId 2 2 = .error .oob := by decide
+/-- xattr reader: 600 descriptors need two location entries; descriptor 512 is the first one of the second block -/
+example : (xattrLoad exSuper XattrSt.init false 96 600 false (fun i => 100 + 10 * i.toUInt64)).r = .ok () := by decide
+example : (xattrLoad exSuper XattrSt.init false 96 600 false (fun _ => 1001)).r = .error .oob := by decide
+example : (xattrGetDesc exCfg (xattrLoad exSuper XattrSt.init false 96 600 false (fun i => 100 + 10 * i.toUInt64)).st 512).acc.head? =
+    some ⟨.xattrDesc, 0, 16, 16⟩ := by decide
+example : (kvRead exCfg 96 100000 ⟨0x101, 3, 7, ((200 : UInt64) <<< 16) ||| 5⟩ (seek exCfg MetaSt.init 96 0).st).r = .ok () := by decide
+example : (kvRead exCfg 96 100000 ⟨7, 3, 7, 0⟩ (seek exCfg MetaSt.init 96 0).st).r = .error .unsupported := by decide
+example : (dirEntryFromInode 2 1 1 [97, 0, 98] 3).1 = .ok () := by decide
+example : (dirEntryFromInode 2 1 2 [97] 1).1 = .error .corrupted := by decide
+example : (openDir true 0 300 0 (fun i => if i = 5 then some 0 else none) ⟨1, 0, 0, 3, 5, 6⟩).map (·.state) = .ok .opened := by
+  decide
 
 end Sqfs.C05
